@@ -325,6 +325,16 @@ def regrid_spec(dset, freq=None, dir=None, maintain_m0=True):
           directions because indices must be unique to intepolate.
 
     """
+    others = None
+    if isinstance(dset, xr.Dataset):
+        # Variables without spectral dims are carried over untouched (not concatenated, not scaled)
+        keep = [
+            v
+            for v in dset.data_vars
+            if not {attrs.FREQNAME, attrs.DIRNAME} & set(dset[v].dims)
+        ]
+        others = dset[keep]
+        dset = dset.drop_vars(keep)
     dsout = dset.copy()
     if isinstance(freq, (list, tuple)):
         freq = np.array(freq)
@@ -342,11 +352,11 @@ def regrid_spec(dset, freq=None, dir=None, maintain_m0=True):
         to_concat = [dsout]
 
         # Repeat the first and last direction with 360 deg offset when required
-        if dir.min() < dsout.dir.min():
+        if dir.min() < dsout.dir.min() or dsout.dir.size == 1:
             highest = dsout.isel(dir=-1)
             highest["dir"] = highest.dir - 360
             to_concat = [highest, dsout]
-        if dir.max() > dsout.dir.max():
+        if dir.max() > dsout.dir.max() or dsout.dir.size == 1:
             lowest = dsout.isel(dir=0)
             lowest["dir"] = lowest.dir + 360
             to_concat.append(lowest)
@@ -359,7 +369,7 @@ def regrid_spec(dset, freq=None, dir=None, maintain_m0=True):
 
     if freq is not None:
         # If needed, add a new frequency at f=0 with zero energy
-        if freq.min() < dsout.freq.min():
+        if freq.min() < dsout.freq.min() or dsout.freq.size == 1:
             fzero = 0 * dsout.isel(freq=0)
             fzero["freq"] = 0
             dsout = xr.concat([fzero, dsout], dim="freq")
@@ -371,6 +381,8 @@ def regrid_spec(dset, freq=None, dir=None, maintain_m0=True):
         scale = dset.spec.hs() ** 2 / dsout.spec.hs() ** 2
         dsout = dsout * scale
 
+    if others is not None:
+        dsout = dsout.assign(others.data_vars)
     if isinstance(dsout, xr.DataArray):
         dsout.name = "efth"
     set_spec_attributes(dsout)
